@@ -331,8 +331,6 @@ def _ascii(s):
 
 def execute(ev):
     """Run one invocation through the real main() and fill in the observation fields."""
-    import secrets  # noqa
-
     import bits.__main__ as M
     import bits.ecmath
 
@@ -401,22 +399,13 @@ def run_events(pool, events, seed):
 
 # ----------------------------------------------------------------------------- judging by TLC
 EVENT_FIELDS = ("id", "cmd", "opts", "input", "rc", "out", "fout", "ret", "jok", "j")
-_words_file = []
-
-
-def words_file():
-    if not _words_file:
-        os.makedirs(vlib.WORK, exist_ok=True)
-        p = os.path.join(vlib.WORK, f"bip39-words-{os.getpid()}.json")
-        with open(p, "w") as fh:
-            json.dump([list(w.encode()) for w in words()], fh, separators=(",", ":"))
-        _words_file.append(p)
-    return _words_file[0]
 
 
 def cost(e):
     """rough TLC cost of judging an event (seconds), used to balance the JVMs"""
     c, o = e["cmd"], e["opts"]
+    if c == "selftest":
+        return 0.01
     if c == "hd":
         return 0.6 + 0.8 * bytes(o["path"]).count(b"/") + (0.5 if o.get("xpub") else 0)
     if c == "sig":
@@ -430,21 +419,21 @@ def cost(e):
     return 0.02 + len(e["input"]) / 2000.0
 
 
-def judge(events, tag, jobs=16):
+def judge(events, tag, jobs=12):
     """events with observation fields -> ({id: verdict}, stats) through Trace_CliCmd at real size"""
     slim = [{k: e[k] for k in EVENT_FIELDS if k in e} for e in events]
     for s, e in zip(slim, events):
         if e["cmd"] == "selftest":
             s.update({k: v for k, v in e.items() if k not in ("x",)})
     # balance: heaviest first, round-robin over the JVMs
-    order = sorted(range(len(slim)), key=lambda i: -cost(events[i]) if events[i]["cmd"] != "selftest" else 0)
-    njvm = max(1, min(jobs, (len(slim) + 7) // 8))
+    order = sorted(range(len(slim)), key=lambda i: -cost(events[i]))
+    njvm = max(1, min(jobs, (len(slim) + 11) // 12))
     buckets = [[] for _ in range(njvm)]
     load = [0.0] * njvm
     for i in order:
         b = load.index(min(load))
         buckets[b].append(slim[i])
-        load[b] += cost(events[i]) if events[i]["cmd"] != "selftest" else 0.01
+        load[b] += cost(events[i])
     verdicts, stats = {}, {"states": 0, "distinct": 0, "jvms": 0, "tlc_wall_s": 0.0}
     env = dict(JVM_ENV)
 
@@ -1059,31 +1048,392 @@ def _case(e, stage):
             "returned": bytes(e.get("ret", []))[:120].decode("latin1")}
 
 
-def report(ctx, done, verdicts, stage):
-    n = 0
+class Mismatches:
+    """EXTENSION-MISMATCH notes: all are counted, at most 3 cases per clause and stage are recorded; they are handed to the
+    context at the end, one case of every clause first (the context prints only the first few notes)."""
+
+    def __init__(self, ctx):
+        self.ctx = ctx
+        self.counts = {}
+        self.kept = {}
+
+    def add(self, clause, e, stage):
+        k = (stage, clause)
+        self.counts[k] = self.counts.get(k, 0) + 1
+        if self.counts[k] <= 3:
+            self.kept.setdefault(k, []).append(_case(e, stage))
+
+    def of_stage(self, stage):
+        return {c: v for (st, c), v in sorted(self.counts.items()) if st == stage}
+
+    def flush(self):
+        for rank in range(3):
+            for clause in sorted({c for _, c in self.kept}):
+                for stage in ("C", "B"):
+                    cases = self.kept.get((stage, clause), [])
+                    if rank < len(cases):
+                        self.ctx.extension_mismatch(clause, cases[rank])
+
+
+# ----------------------------------------------------------------------------- published vectors as pre-recorded events (spec self-test)
+GENESIS_HEX = ("0100000000000000000000000000000000000000000000000000000000000000000000003ba3edfd7a7b12b27ac72c3e67768f617fc81bc3888a51323a9fb8aa"
+               "4b1e5e4a29ab5f49ffff001d1dac2b7c0101000000010000000000000000000000000000000000000000000000000000000000000000ffffffff4d04ffff001d"
+               "0104455468652054696d65732030332f4a616e2f32303039204368616e63656c6c6f72206f6e206272696e6b206f66207365636f6e64206261696c6f75742066"
+               "6f722062616e6b73ffffffff0100f2052a01000000434104678afdb0fe5548271967f1a67130b7105cd6a828e03909a67962e0ea1f61deb649f6bc3f4cef38c4"
+               "f35504e51ec112de5c384df7ba0b8d578a4c702b6bf11d5fac00000000")
+
+
+def vectors():
+    """(cmd, opts, input, expected stdout | parsed JSON, source).  Values as published - never computed by the code under test."""
+    v = []
+
+    def rec(cmd, o, inp, out=None, j=None, src=""):
+        e = invocation(cmd, o, inp)
+        e.update(rc=0, out=J(out or b""), fout=[], ret=[], jok=j is not None, j=j if j is not None else [], cls="vector:" + src, argv=["(pre-recorded)"])
+        v.append(e)
+
+    hx = bytes.fromhex
+    # tests/unit/test_main.py::test_pubkey
+    rec("pubkey", opts(inf="raw", outf="hex", compressed=True), hx("3a0a3ff6ae19d221c7ddfd3157d83ff9bc25fa28911e682f95fe5d0ac657ff3c"),
+        b"0355e917de55a0aed9dbdafd2516f5b110c3d3a306a09ff705e2530ca5bbe07199\n", src="test_main.py::test_pubkey")
+    # doctests of bits.utils (compute_point / pubkey / point)
+    rec("pubkey", opts(inf="hex", outf="hex", compressed=True), b"c3e7b149ad167dc83a5653a9eaae1cc50b36793bfdc050d8efab831d04b876a7\n",
+        b"03c463495bd336bc29636ed6d8c1cf162b45d76adda4df9499370dded242758c56\n", src="bits.utils.pubkey doctest")
+    # doctests of bits.base58
+    rec("base58", opts(inf="raw", check=False, decode=False), b"hello world", b"StV1DL6CwTryKyV", src="base58encode doctest")
+    rec("base58", opts(inf="raw", check=True, decode=False), b"hello world", b"3vQB7B6MrGQZaxCuFg4oh", src="base58check doctest")
+    rec("base58", opts(outf="raw", check=False, decode=True), b"StV1DL6CwTryKyV", b"hello world", src="base58decode doctest")
+    rec("base58", opts(outf="hex", check=True, decode=True), b"3vQB7B6MrGQZaxCuFg4oh", b"68656c6c6f20776f726c64\n", src="base58check_decode doctest")
+    # FIPS 180 / RIPEMD-160 publication / Bitcoin wiki
+    rec("sha256", opts(inf="raw", outf="hex"), b"abc", b"ba7816bf8f01cfea414140de5dae2223b00361a396177a9cb410ff61f20015ad\n", src="FIPS 180-2 B.1")
+    rec("sha256", opts(inf="hex", outf="hex"), b"\n", b"e3b0c44298fc1c149afbf4c8996fb92427ae41e4649b934ca495991b7852b855\n", src="SHA-256 of the empty string")
+    rec("ripemd160", opts(inf="raw", outf="hex"), b"abc", b"8eb208f7e05d987a9b044a8e98c6b087f15a0bfc\n", src="RIPEMD-160 publication")
+    rec("hash256", opts(inf="raw", outf="hex"), b"hello", b"9595c9df90075148eb06860365df33584b75bff782a510c6cd4883a419833d50\n", src="Bitcoin wiki: hashes")
+    rec("hash160", opts(inf="raw", outf="hex"), b"hello", b"b6a9c8c230722b7c748331a8b450f05566dc7d0f\n", src="Bitcoin wiki: hashes")
+    # BIP39 (tests/unit/test_bip39.py = trezor vectors.json, doctest of calculate_mnemonic_phrase)
+    trezor = [("00000000000000000000000000000000", "abandon abandon abandon abandon abandon abandon abandon abandon abandon abandon abandon about",
+               "c55257c360c07c72029aebc1b53c05ed0362ada38ead3e3e9efa3708e53495531f09a6987599d18264c1e1c92f2cf141630c7a3c4ab7c81b2f001698e7463b04",
+               "xprv9s21ZrQH143K3h3fDYiay8mocZ3afhfULfb5GX8kCBdno77K4HiA15Tg23wpbeF1pLfs1c5SPmYHrEpTuuRhxMwvKDwqdKiGJS9XFKzUsAF"),
+              ("7f7f7f7f7f7f7f7f7f7f7f7f7f7f7f7f", "legal winner thank year wave sausage worth useful legal winner thank yellow",
+               "2e8905819b8723fe2c1d161860e5ee1830318dbf49a83bd451cfb8440c28bd6fa457fe1296106559a3c80937a1c1069be3a3a5bd381ee6260e8d9739fce1f607",
+               "xprv9s21ZrQH143K2gA81bYFHqU68xz1cX2APaSq5tt6MFSLeXnCKV1RVUJt9FWNTbrrryem4ZckN8k4Ls1H6nwdvDTvnV7zEXs2HgPezuVccsq"),
+              ("ffffffffffffffffffffffffffffffff", "zoo zoo zoo zoo zoo zoo zoo zoo zoo zoo zoo wrong",
+               "ac27495480225222079d7be181583751e86f571027b0497b5b5d11218e0a8a13332572917f0f8e5a589620c6f15b11c61dee327651a14c34e18231052e48c069",
+               "xprv9s21ZrQH143K2V4oox4M8Zmhi2Fjx5XK4Lf7GKRvPSgydU3mjZuKGCTg7UPiBUD7ydVPvSLtg9hjp7MQTYsW67rZHAXeccqYqrsx8LcXnyd")]
+    tz = [ord(c) for c in "TREZOR"]
+    for ent, ph, seed, xprv in trezor:
+        rec("mnemonic", opts(inf="hex", mode="from-entropy", net="mainnet"), ent.encode() + b"\n", ph.encode() + b"\n", src="BIP39 vectors (test_bip39.py)")
+        rec("mnemonic", opts(outf="hex", mode="to-entropy", net="mainnet"), ph.encode() + b"\n", ent.encode() + b"\n", src="BIP39 vectors (test_bip39.py)")
+        rec("mnemonic", opts(outf="hex", mode="to-seed", net="mainnet", **{"pass": tz}), ph.encode() + b"\n", seed.encode() + b"\n", src="BIP39 vectors (test_bip39.py)")
+        rec("mnemonic", opts(mode="to-master-key", net="mainnet", **{"pass": tz}), ph.encode() + b"\n", xprv.encode(), src="BIP39 vectors (test_bip39.py)")
+    rec("mnemonic", opts(inf="hex", mode="from-entropy", net="mainnet"), b"6610b25967cdcca9d59875f5cb50b0ea75433311869e930b",
+        b"gravity machine north sort system female filter attitude volume fold club stay feature office ecology stable narrow fog\n",
+        src="calculate_mnemonic_phrase doctest")
+    # BIP32 test vector 1 (tests/unit/test_bip32.py)
+    m = b"xprv9s21ZrQH143K3QTDL4LXw2F7HEK3wJUD2nW2nRk4stbPy6cq3jPPqjiChkVvvNKmPGJxWUtg6LnF5kejMRNNU3TGtRBeJgk33yuGBxrMPHi"
+    mpub = b"xpub661MyMwAqRbcFtXgS5sYJABqqG9YLmC4Q1Rdap9gSE8NqtwybGhePY2gZ29ESFjqJoCu1Rupje8YtGqsefD265TMg7usUDFdp6W1EGMcet8"
+    m0h = b"xprv9uHRZZhk6KAJC1avXpDAp4MDc3sQKNxDiPvvkX8Br5ngLNv1TxvUxt4cV1rGL5hj6KCesnDYUhd7oWgT11eZG7XnxHrnYeSvkzY7d2bhkJ7"
+    m0hpub = b"xpub68Gmy5EdvgibQVfPdqkBBCHxA5htiqg55crXYuXoQRKfDBFA1WEjWgP6LHhwBZeNK1VTsfTFUHCdrfp1bgwQ9xv5ski8PX9rL2dZXvgGDnw"
+    m0h1 = b"xprv9wTYmMFdV23N2TdNG573QoEsfRrWKQgWeibmLntzniatZvR9BmLnvSxqu53Kw1UmYPxLgboyZQaXwTCg8MSY3H2EU4pWcQDnRnrVA1xe8fs"
+    m0h1pub = b"xpub6ASuArnXKPbfEwhqN6e3mwBcDTgzisQN1wXN9BJcM47sSikHjJf3UFHKkNAWbWMiGj7Wf5uMash7SyYq527Hqck2AxYysAA7xmALppuCkwQ"
+    rec("hd", opts(path=J(b"m"), xpub=False), m, m, src="BIP32 test vector 1")
+    rec("hd", opts(path=J(b"m"), xpub=True), m, mpub, src="BIP32 test vector 1")
+    rec("hd", opts(path=J(b"m/0'"), xpub=False), m, m0h, src="BIP32 test vector 1")
+    rec("hd", opts(path=J(b"m/0'"), xpub=True, print=True), m, m0hpub + b"\n", src="BIP32 test vector 1")
+    rec("hd", opts(path=J(b"m/0'/1"), xpub=False), m, m0h1, src="BIP32 test vector 1")
+    rec("hd", opts(path=J(b"m/1"), xpub=False), m0h, m0h1, src="BIP32 test vector 1")
+    rec("hd", opts(path=J(b"M/1"), xpub=False), m0hpub, m0h1pub, src="BIP32 test vector 1")
+    # addresses: BIP173 / BIP350 examples, doctests of bits.script.scriptpubkey
+    rec("addr", opts(inf="hex", type="p2pkh", haswv=True, wv=0, net="mainnet"), b"751e76e8199196d454941c45d1b3a323f1433bd6",
+        b"bc1qw508d6qejxtdg4y5r3zarvary0c5xw7kv8f3t4", src="BIP173 examples")
+    rec("addr", opts(inf="hex", type="p2sh", haswv=True, wv=0, net="testnet"), b"1863143c14c5166804bd19203356da136c985678cd4d27a1b8c6329604903262",
+        b"tb1qrp33g0q5c5txsp9arysrx4k6zdkfs4nce4xj0gdcccefvpysxf3q0sl5k7", src="BIP173 examples")
+    rec("addr", opts(inf="hex", type="p2pkh", haswv=True, wv=1, net="mainnet"), b"79be667ef9dcbbac55a06295ce870b07029bfcdb2dce28d959f2815b16f81798",
+        b"bc1p0xlxvlhemja6c4dqv22uapctqupfhlxm9h8z3k2e72q4k9hcz7vqzk5jj0", src="BIP350 test vectors")
+    rec("addr", opts(inf="hex", type="p2pkh", haswv=False, wv=0, net="mainnet"), b"63780efe21b54d462d399b4c5b9902235aa570ec",
+        b"1A4wionHnAtthCbCb9CTmDJaKuEPNXZp8R", src="scriptpubkey doctest")
+    rec("addr", opts(inf="hex", type="p2sh", haswv=False, wv=0, net="mainnet", print=True), b"ee87e9344a5ef0f83a0aa250256a3cc394ab7503",
+        b"3PSFZTX6WxhFTmPBLnCh6gwxomb4vvxSpP\n", src="scriptpubkey doctest")
+    rec("bech32", opts(inf="hex", decode=False, hrp=J(b"bc"), haswv=True, wv=1), b"79be667ef9dcbbac55a06295ce870b07029bfcdb2dce28d959f2815b16f81798",
+        b"bc1p0xlxvlhemja6c4dqv22uapctqupfhlxm9h8z3k2e72q4k9hcz7vqzk5jj0", src="BIP350 test vectors")
+    rec("bech32", opts(inf="hex", decode=False, hrp=J(b"a"), haswv=False, wv=0), b"\n", b"a12uel5l", src="BIP173 valid Bech32")
+    seg = {"form": "segwit", "network": "mainnet", "ver": 0, "prog": J(hx("751e76e8199196d454941c45d1b3a323f1433bd6")), "hrp": [], "payload": []}
+    rec("bech32", opts(decode=True, hrp=[], haswv=False, wv=0), b"BC1QW508D6QEJXTDG4Y5R3ZARVARY0C5XW7KV8F3T4", j=seg, src="BIP173 examples")
+    rec("bech32", opts(decode=True, hrp=[], haswv=False, wv=0), b"A12UEL5L", j={"form": "generic", "network": "", "ver": 0, "prog": [], "hrp": J(b"a"), "payload": []},
+        src="BIP173 valid Bech32")
+    # WIF: Bitcoin wiki "Wallet import format"
+    wk = "0c28fca386c7a227600b2fe50b7cae11ec86d3bf1fbe471be89827e19d72aa1d"
+    rec("wif", opts(inf="hex", type="p2pkh", net="mainnet", decode=False, data=[], hasdata=False), wk.encode(), b"5HueCGU8rMjxEXxiPuD5BDku4MkFqeZyd4dZ1jvhTVqvbTLvyTJ",
+        src="Bitcoin wiki: WIF")
+    rec("wif", opts(inf="hex", type="p2pkh", net="mainnet", decode=False, data=[1], hasdata=True), wk.encode(), b"KwdMAjGmerYanjeui5SHS7JkmpZvVipYvB2LJGU1ZxJwYvP98617",
+        src="Bitcoin wiki: WIF")
+    rec("wif", opts(type="p2pkh", net="mainnet", decode=True, data=[], hasdata=False), b"KwdMAjGmerYanjeui5SHS7JkmpZvVipYvB2LJGU1ZxJwYvP98617",
+        j={"version": [0x80], "network": "mainnet", "type": "p2pkh", "key": J(hx(wk)), "data": [1]}, src="Bitcoin wiki: WIF")
+    # script: doctest of bits.script.script (2-of-3 multisig)
+    pks = ["024c9b21035e4823d6f09d5a948201d14086d854dfa5bba828c06f5131d9cfe14f", "03fe0b5ca0ab60705b21a00cbd9900026f282c7188427123e87e0dc344ce742eb0",
+           "02528e776c2bf0be68f4503151fd036c9cb720c4977f6f5b0248d5472c654aebe4"]
+    args = ["OP_2"] + pks + ["OP_3", "OP_CHECKMULTISIG"]
+    ms = "5221" + pks[0] + "21" + pks[1] + "21" + pks[2] + "53ae"
+    rec("script", opts(outf="hex", decode=False, witness=False, items=[_item_of_arg(a) for a in args]), b"", ms.encode() + b"\n", src="bits.script.script doctest")
+    rec("script", opts(decode=True, witness=False, hexok=True, scripts=[J(hx(ms))]), b"", j=[[_item_of_arg(a) for a in args]], src="bits.script.script doctest")
+    # the genesis block (Bitcoin Core chainparams / block explorers)
+    rec("blockchain", opts(outf="hex", hasheight=True, height=0, header=False, decode=False, net="mainnet"), b"", GENESIS_HEX.encode() + b"\n", src="genesis block")
+    rec("blockchain", opts(outf="raw", hasheight=True, height=0, header=True, decode=False, net="mainnet"), b"", hx(GENESIS_HEX)[:80], src="genesis block")
+    hdr = {"version": [1, 0, 0, 0], "prev": [0] * 32, "merkle": J(hx("3ba3edfd7a7b12b27ac72c3e67768f617fc81bc3888a51323a9fb8aa4b1e5e4a")),
+           "time": J((1231006505).to_bytes(4, "little")), "bits": J(hx("ffff001d")), "nonce": J((2083236893).to_bytes(4, "little"))}
+    rec("blockchain", opts(inf="hex", hasheight=False, height=0, header=True, decode=True, net="mainnet"), GENESIS_HEX.encode(), j={"hdr": hdr, "txs": []}, src="genesis block")
+    v.append({"cmd": "selftest", "t": "genesis-hash", "opts": {}, "input": [], "cls": "vector:genesis block hash", "argv": []})
+    v.append({"cmd": "selftest", "t": "genesis-block", "block": J(hx(GENESIS_HEX)), "opts": {}, "input": [], "cls": "vector:genesis block", "argv": []})
+    return v
+
+
+def corrupt(e):
+    """A twin of a recorded event that a constrained invocation can never have produced."""
+    t = json.loads(json.dumps({k: v for k, v in e.items() if k not in ("x",)}))
+    t["twin_of"] = e["id"]
+    o = t["opts"]
+    key = "fout" if o.get("sink") == "file" else "out"
+    if t["cmd"] == "sig" and o.get("verify"):
+        if t["rc"] == 0 and bytes(t["out"]) == b"OK\n":
+            t["out"] = J(b"invalid signature\n")
+        else:
+            t["rc"], t["out"] = 0, J(b"OK\n")
+    elif t["rc"] != 0:
+        t["rc"], t[key], t["ret"] = 0, J(b"7"), []
+        if t.get("jok") is not None and o.get("decode") and t["cmd"] in ("wif", "bech32", "script", "tx", "blockchain"):
+            t["jok"] = False
+    elif t.get("jok"):
+        t["jok"], t["j"] = False, []
+    elif t[key]:
+        b = list(t[key])
+        i = len(b) // 2
+        b[i] = b[i] ^ 1 if b[i] not in (10,) else 48
+        t[key] = b
+    else:
+        t[key] = [48]
+    return t
+
+
+# ----------------------------------------------------------------------------- stage A / stage B (rows printed by TLC)
+KEY_BY_CLASS = {"one": (1).to_bytes(32, "big"), "two": (2).to_bytes(32, "big"),
+                "mid": bytes.fromhex("3a0a3ff6ae19d221c7ddfd3157d83ff9bc25fa28911e682f95fe5d0ac657ff3c"), "n-1": (N - 1).to_bytes(32, "big"),
+                "zero": bytes(32), "n": N.to_bytes(32, "big"), "short": b"\x01" * 31, "long": b"\x01" * 33}
+
+
+def _num(v):
+    """a Num number as TLC prints it: an integer (toy size) or big-endian bytes (real size)"""
+    return v if isinstance(v, int) else int.from_bytes(bytes(v), "big")
+
+
+def row_event(row, native):
+    """("R", part, cmd, opts, input, key class, outcome) -> invocation + what the specification expects"""
+    _, part, cmd, o, inp, kc, outcome = row
+    o = dict(o)
+    o.setdefault("inf", "hex")
+    o.setdefault("outf", "hex")
+    o.setdefault("print", False)
+    o.update(src="stdin", sink="stdout")
+    x, extra = {}, {}
+    data = bytes(inp)
+    if kc:
+        data = render(KEY_BY_CLASS[kc], o["inf"])
+    if cmd == "script":
+        x["args"] = [(it["n"] if it["k"] == "op" else bytes(it["d"]).hex() if it["k"] == "data" else "zz") for it in o["items"]] if not o["decode"] else \
+                    [bytes(s).hex() for s in o["scripts"]]
+    elif cmd == "tx" and not o["decode"]:
+        a = []
+        for i in o["ins"]:
+            a += ["-txin", json.dumps({"txid": bytes(i["txid"]).hex(), "vout": int.from_bytes(bytes(i["vout"]), "little"), "scriptsig": bytes(i["script"]).hex()})]
+        for t in o["outs"]:
+            a += ["-txout", json.dumps({"satoshis": int.from_bytes(bytes(t["value"]), "little"), "scriptpubkey": bytes(t["script"]).hex()})]
+        a += ["-v", str(int.from_bytes(bytes(o["version"]), "little")), "-l", str(int.from_bytes(bytes(o["locktime"]), "little"))]
+        for w in o["wits"]:
+            a += ["--script-witness", bytes(w).hex()]
+        x["args"] = a
+    elif cmd == "sig":
+        x["msg"] = bytes(o["msg"]).hex()
+        ds = [_num(d) for d in o["draws"]]
+        extra["draws"] = [str(d) for d in ds]
+        o["draws"] = [big(d) for d in ds]
+    elif cmd == "key":
+        d = _num(o["draw"])
+        extra["draws"] = [str(d)]
+        o["draw"] = big(d)
+    elif cmd == "mnemonic":
+        extra["passphrase"] = "".join(chr(c) for c in o.get("pass", []))
+        if o["mode"] == "generate":
+            extra["token"] = list(o["token"])
+    e = invocation(cmd, o, data, x, **extra)
+    e["cls"] = "row:" + part
+    e["want"] = outcome
+    return e
+
+
+def rows_of(r):
+    rows = [p for p in r.prints if isinstance(p, list) and len(p) == 7 and p[0] == "R"]
+    return rows
+
+
+def compare_rows(done):
+    """direct comparison of the observed outcome with the row: list of events that disagree"""
+    bad = []
     for e in done:
-        v = verdicts[e["id"]]
-        if v != "ok":
-            n += 1
-            ctx.extension_mismatch(v, _case(e, stage))
-    return n
+        w = e["want"]
+        kind = w[0]
+        if kind == "open":
+            continue
+        ok = e["rc"] == 0
+        if kind == "fail":
+            good = not ok
+        elif kind == "okj":
+            good = ok and e["jok"]
+        elif kind == "status":
+            says_ok = ok and bytes(e["out"]) == b"OK\n"
+            good = says_ok if w[1] == "OK" else (not says_ok if w[1] == "NOT-OK" else not ok)
+        else:
+            mayfail = w[-1]
+            good = ok or mayfail
+            if ok and len(w) == 3:                      # exact expected output
+                good = bytes(e["out"]) == bytes(w[1])
+        if not good:
+            bad.append(e)
+    return bad
 
 
-def stage_c(ctx, pool):
+def tlc_jobs(ctx):
+    """all model-checking runs of the stage, started at once"""
     quick = ctx.tier == "quick"
+    sz = "q" if quick else "t"
+    w = 8 if quick else 16
+    ex = ThreadPoolExecutor(max_workers=4)
+    jobs = {
+        "toy": ex.submit(vlib.tlc, "MC_CliCmd", f"MC_CliCmd_{sz}.cfg", workers=w, heap="3g", timeout=3000),
+        "gen": ex.submit(vlib.tlc, "MC_CliCmd", f"MC_CliCmd_gen_{sz}.cfg", native=True, workers=w, heap="3g", timeout=3000),
+        "dev": ex.submit(vlib.tlc, "MC_CliCmd", "MC_CliCmd_dev.cfg", workers=2, heap="2g", timeout=900, env=JVM_ENV),
+    }
+    return ex, jobs
+
+
+def stage_a(ctx, res):
+    sz = "q" if ctx.tier == "quick" else "t"
+    lattice = "13 parts (hash, base58, bech32, addr, wif, pubkey, key, mnemonic, hd, script, tx, blockchain, sig): option lattice x symbolic inputs"
+    for key, name, const in (("toy", f"MC_CliCmd_{sz}.cfg", "small curve p=43 n=31, toy hashes (Big = FALSE); " + lattice),
+                             ("gen", f"MC_CliCmd_gen_{sz}.cfg", "secp256k1, native hashes (Big = TRUE): the theorems at real size, incl. sig | sig --verify; " + lattice)):
+        r = res[key]
+        if not r.completed:
+            raise vlib.MachineryFailure(f"stage A: {name} did not complete cleanly:\n" + r.error_text())
+        ctx.stage_a(name, r, constants=const)
+    r = res["dev"]
+    if r.invariant != "SegwitPair":
+        raise vlib.MachineryFailure("vacuity guard MC_CliCmd_dev.cfg: TLC did not report SegwitPair violated under Dev = {bech32-const1}:\n" + r.error_text())
+    ctx.cov["stage_a"].append({"model": "MC_CliCmd_dev.cfg (vacuity self-test: Dev = {bech32-const1})", "expected_violation": "SegwitPair", "found": True,
+                               "exhaustive": True})
+
+
+def stage_b(ctx, pool, res, mm):
+    rows_class = rows_of(res["toy"])
+    rows_exact = rows_of(res["gen"])
+    if len(rows_class) < 300 or len(rows_exact) < 300:
+        raise vlib.MachineryFailure(f"MC_CliCmd emitted too few rows ({len(rows_class)} class rows, {len(rows_exact)} exact rows)")
+    ev = [row_event(r, False) for r in rows_class] + [row_event(r, True) for r in rows_exact]
+    ev.sort(key=lambda e: json.dumps([e["cmd"], e["opts"], e["input"]], sort_keys=True, default=str))
+    for i, e in enumerate(ev):
+        e["id"] = i
+    done = run_events(pool, ev, ctx.seed + 2)
+    for e in done:
+        ctx.nontrivial(("B", e["cmd"], tuple(e["argv"]), bytes(e["input"])))
+    bad = compare_rows(done)
+    mism = 0
+    if bad:
+        verdicts, _ = judge(bad, "cb")
+        for e in bad:
+            v = verdicts[e["id"]]
+            if v in ("ok", "open"):
+                raise vlib.MachineryFailure(f"MC_CliCmd row and Trace_CliCmd disagree on {_case(e, 'B')} (row expects {str(e['want'])[:120]})")
+            mism += 1
+            mm.add(v, e, "B")
+    kinds = {}
+    for e in done:
+        kinds[e["want"][0]] = kinds.get(e["want"][0], 0) + 1
+    ctx.stage_b("MC_CliCmd rows -> real command line", len(done), class_rows=len(rows_class), exact_rows=len(rows_exact), outcome_kinds=kinds,
+                mismatching_rows=mism, mismatches_by_clause=mm.of_stage("B"))
+    # binding self-test on rows: an expected output with one byte changed must be noticed
+    exact = [e for e in done if e["want"][0] == "ok" and len(e["want"]) == 3 and e["rc"] == 0 and e["want"][1]]
+    if not exact:
+        raise vlib.MachineryFailure("no exact row succeeded: nothing binds the rows to the command line")
+    probe = []
+    for e in exact[::max(1, len(exact) // 200)]:
+        w = list(e["want"][1])
+        w[len(w) // 2] ^= 1
+        probe.append(dict(e, want=["ok", w, e["want"][2]]))
+    missed = [e for e in probe if e not in compare_rows([e])]
+    if missed:
+        raise vlib.MachineryFailure(f"binding self-test (rows): {len(missed)} corrupted expected outputs were not noticed")
+    return done
+
+
+def check_words_module():
+    with open(os.path.join(vlib.SPEC, "CliCmdWords.tla")) as fh:
+        text = fh.read()
+    got = [bytes(int(c) for c in m.split(",")).decode() for m in re.findall(r"<<([0-9,]+)>>", text)]
+    if got != words():
+        raise vlib.MachineryFailure("spec/CliCmdWords.tla is not the pinned BIP39 English word list")
+
+
+def stage(ctx):
+    """stage A + B + C of the CliCmd extension (never raises a VIOLATION)"""
+    check_words_module()
     OPC.update(_opcodes())
-    g = Gen(ctx.seed, quick)
-    ev1 = g.all_phase1()
-    done1 = run_events(pool, ev1, ctx.seed)
-    ev2 = g.phase2(done1)
-    done2 = run_events(pool, ev2, ctx.seed + 1)
-    done = done1 + done2
-    verdicts, stats = judge(done, "cc")
+    quick = ctx.tier == "quick"
+    mm = Mismatches(ctx)
+    with clirig.Pool(16) as pool:          # forked before any thread exists
+        ex, jobs = tlc_jobs(ctx)
+        try:
+            # stage C: execute, then judge together with the published vectors and the corrupted twins
+            g = Gen(ctx.seed, quick)
+            done1 = run_events(pool, g.all_phase1(), ctx.seed)
+            done2 = run_events(pool, g.phase2(done1), ctx.seed + 1)
+            done = done1 + done2
+            vec = vectors()
+            base = done + vec
+            for i, e in enumerate(base):
+                e["id"] = i
+            twins = [corrupt(e) for e in done[::7]] + [corrupt(e) for e in vec if e["cmd"] != "selftest"]
+            for i, t in enumerate(twins):
+                t["id"] = len(base) + i
+            batch = base + twins
+            verdicts, stats = judge(batch, "cc")
+            res = {k: f.result() for k, f in jobs.items()}
+        finally:
+            ex.shutdown(wait=True)
+        stage_a(ctx, res)
+        stage_b(ctx, pool, res, mm)
+    # ---- stage C bookkeeping
+    for e in vec:
+        if verdicts[e["id"]] != "ok":
+            raise vlib.MachineryFailure(f"Trace_CliCmd self-test: published vector {e['cls']} ({e['cmd']}) judged {verdicts[e['id']]!r}")
+    checked = 0
+    for t in twins:
+        if verdicts[t["twin_of"]] == "ok":          # (an open outcome stays open whatever was recorded)
+            checked += 1
+            if verdicts[t["id"]] in ("ok", "open"):
+                raise vlib.MachineryFailure(f"binding self-test: Trace_CliCmd accepted a corrupted recording of {_case(t, 'C')}")
+    if checked < 20:
+        raise vlib.MachineryFailure(f"binding self-test: only {checked} corrupted recordings could be checked")
     for e in done:
         ctx.nontrivial(("C", e["cmd"], e.get("cls"), tuple(e["argv"]), bytes(e["input"])))
-    mism = report(ctx, done, verdicts, "C")
+    mism = sum(1 for e in done if verdicts[e["id"]] not in ("ok", "open"))
+    for e in done:
+        if verdicts[e["id"]] not in ("ok", "open"):
+            mm.add(verdicts[e["id"]], e, "C")
     per = {}
     for e in done:
         per[e["cmd"]] = per.get(e["cmd"], 0) + 1
-    ctx.stage_c("Trace_CliCmd (boundary + seeded random invocations of every subcommand)", len(done), stats, per_subcommand=per, mismatching_events=mism)
-    return done, verdicts
+    ctx.stage_c("Trace_CliCmd (boundary + seeded random invocations of every subcommand; published vectors; corrupted twins)", len(batch), stats,
+                invocations=len(done), per_subcommand=per, open_outcomes=sum(1 for e in done if verdicts[e["id"]] == "open"),
+                mismatching_invocations=mism, mismatches_by_clause=mm.of_stage("C"), published_vectors=len(vec), corrupted_rejected=checked)
+    mm.flush()
+    ctx.sample({"stage": "C", "extension": "CliCmd", "event": _case(next(e for e in done if e["cmd"] == "addr" and verdicts[e["id"]] == "ok"), "C")})
+    ctx.assumptions.append("CliCmd extension: TLC evaluates CliCmd.tla (and the modules it instantiates) correctly; the CLI is run in-process through "
+                           "harness/clirig (scripted argv / stdin / --in-file / --out-file, captured stdout); the random source (secrets) and getpass are "
+                           "scripted; exit status = main() returned None and no SystemExit; JSON outputs are parsed and normalised by the harness")
